@@ -63,12 +63,15 @@ def plan(ctx):
         runs.append(("sim8", gen_subst(8, FIELDS, V5, [f2, f3], ["z", "p1"], V5, True, ["p1", "max"], ["z", "p2"]), (30, 8)))
         mc = dict(gen_subst(3, [f1], V5, [f2], ["p1"], ["z", "p1", "max"], True, ["p1"], ["p2"]))
     else:
+        # every sequence of 5 operations over the reduced alphabet (14 operations per step)
         runs.append(("deep5", gen_subst(5, [f1], ["z"], [], [], ["p1"], True, ["p1"], ["p2"]), None))
-        runs.append(("deep4", gen_subst(4, [f1, f2], ["z", "min"], [f3], ["p1"], ["p1", "max"], True, ["p1"], ["p2"]), None))
+        # every sequence of 4 operations over 6 write classes incl. the extremes (20 operations per step)
+        runs.append(("deep4", gen_subst(4, [f2], ["min", "m1"], [f3], ["p1"], ["max", "z"], True, ["p1"], ["p2"]), None))
         runs.append(("wide2", gen_subst(2, FIELDS, V5, FIELDS, V5, V5, True, ["p1", "max"], ["z", "p2"]), None))
-        runs.append(("wide3", gen_subst(3, FIELDS, ["z", "m1"], [f1, f2], ["p1"], V5, True, ["p1", "max"], ["p2"]), None))
-        runs.append(("sim10", gen_subst(10, FIELDS, V5, FIELDS, ["z", "p1", "max"], V5, True, ["p1", "max"], ["z", "p2"]), (300, 10)))
-        runs.append(("sim30", gen_subst(30, FIELDS, V5, [f2, f3], ["z", "p1"], V5, True, ["p1", "p3"], ["z", "p2"]), (60, 30)))
+        # every sequence of 3 operations over 13 write classes (each single field, all x 5 values; 36 operations per step)
+        runs.append(("wide3", gen_subst(3, FIELDS, ["z"], [f1], ["p1"], V5, True, ["p1", "max"], ["p2"]), None))
+        runs.append(("sim10", gen_subst(10, FIELDS, V5, FIELDS, ["z", "p1", "max"], V5, True, ["p1", "max"], ["z", "p2"]), (100, 10)))
+        runs.append(("sim30", gen_subst(30, FIELDS, V5, [f2, f3], ["z", "p1"], V5, True, ["p1", "p3"], ["z", "p2"]), (40, 30)))
         mc = dict(gen_subst(4, [f1], V5, [f2], ["p1"], ["z", "p1", "max"], True, ["p1"], ["p2"]))
     mc.pop("NONE")
     mc.update({"ARZ": "TRUE", "RNR": "TRUE"})
